@@ -288,7 +288,10 @@ fn inbox_path(r: &Report) {
         let _ = u;
     });
     // honest programs through the same path
-    let honest: Vec<Program> = rules::pool::menu().into_iter().chain(honest_companions()).collect();
+    // menu entries 12/13 re-assert portals that only exist in the nested-portal scenario: on the
+    // chain pre-state they would emit a Descend to a missing instance (an invalid op, not an
+    // honest program), so the inbox phase takes the portal-free part of the menu
+    let honest: Vec<Program> = rules::pool::menu().into_iter().take(12).chain(honest_companions()).collect();
     for (i, p) in honest.iter().enumerate() {
         let pre = pre_chain();
         if !rules::ref_matches(p, &pre, 0) {
